@@ -95,8 +95,15 @@ def _branch_paths(check: Check, rule: str, cfg: CFG, br: ast.If, line_inc: str, 
     head = [n for n in cfg.nodes_of(loop) if n.kind == "join"]
     in_branch = lambda n: n.ast is not None and _inside(n.ast, br.body)  # noqa: E731
 
+    def _canon(stmt: ast.AST) -> str:
+        # `x = x + k` and `x += k` are the same statement
+        if isinstance(stmt, ast.Assign) and len(stmt.targets) == 1 and isinstance(stmt.value, ast.BinOp) \
+                and isinstance(stmt.value.op, ast.Add) and unparse(stmt.value.left) == unparse(stmt.targets[0]):
+            return f"{unparse(stmt.targets[0])} += {unparse(stmt.value.right)}"
+        return unparse(stmt)
+
     def is_stmt(txts):
-        return lambda n: n.kind == "stmt" and n.ast is not None and unparse(n.ast) in txts
+        return lambda n: n.kind == "stmt" and n.ast is not None and _canon(n.ast) in txts
 
     def avoid_path(avoid) -> bool:
         """exists a path from branch start to the loop head / function exit avoiding `avoid`?"""
@@ -510,7 +517,9 @@ def line_owners(check: Check, repo: Repo, rule: str = "LINE-OWNERS") -> None:
                     continue
                 n += 1
                 in_owner = name in owners
-                grows = name == "__init__" or w.detail != "line" or (isinstance(w.node, ast.AugAssign) and isinstance(w.node.op, ast.Add))
+                grows = name == "__init__" or w.detail != "line" or (isinstance(w.node, ast.AugAssign) and isinstance(w.node.op, ast.Add)) or (
+                    isinstance(w.node, ast.Assign) and isinstance(w.node.value, ast.BinOp) and isinstance(w.node.value.op, ast.Add)
+                    and unparse(w.node.value.left) == "self.line")
                 ok = in_owner and grows
                 check.ob(rule, w.node, f"{ci.name}.{name}: {node_text(w.node, 60)}", ok,
                          "owner routine, counter only grows" if ok else
